@@ -459,7 +459,7 @@ ssize_t comp_read(zckCtx *zck, char *dst, size_t dst_size, bool use_dict) {
     char *src = zmalloc(dst_size - dc);
     if (!src) {
         zck_log(ZCK_LOG_ERROR, "OOM in %s", __func__);
-        return false;
+        return -1;
     }
     zck_log(ZCK_LOG_DEBUG, "Trying to read %llu bytes", (long long unsigned) dst_size);
     while(dc < dst_size) {
